@@ -1,5 +1,6 @@
 //! Background worker thread sink for aggregation
 
+#[cfg(not(metrique_verif_loom))]
 use std::{
     marker::PhantomData,
     sync::Arc,
@@ -7,7 +8,20 @@ use std::{
     thread,
     time::{Duration, Instant},
 };
+#[cfg(not(metrique_verif_loom))]
 use tokio::sync::oneshot;
+// verification builds only: channel, thread, clock and oneshot become scheduler-visible
+#[cfg(metrique_verif_loom)]
+use {
+    metrique_writer::core::__verif::std_shim::{
+        sync::Arc,
+        sync::mpsc::{Sender, channel},
+        thread,
+        time::{Duration, Instant},
+    },
+    metrique_writer::verif_tokio::sync::oneshot,
+    std::marker::PhantomData,
+};
 
 use crate::traits::{AggregateSink, FlushableSink, RootSink};
 
